@@ -97,6 +97,9 @@ HandleProfileCalls(s) ==
     (IF Len(s.h) < MaxH
         THEN {[C0 EXCEPT !.op = "open", !.p = p, !.flag = f, !.perm = 420] : p \in {FA, FB}, f \in OpenFlagSets}
              \cup {[C0 EXCEPT !.op = "open", !.p = WorkP, !.flag = <<"RDONLY">>]}
+             \* names relative to the working directory /w: a bare file name, and the directory itself as "."
+             \cup {[C0 EXCEPT !.op = "open", !.p = RelP(<<"a">>), !.flag = f, !.perm = 420] : f \in {<<"RDONLY">>, <<"RDWR">>, <<"WRONLY", "CREATE">>}}
+             \cup {[C0 EXCEPT !.op = "open", !.p = RelP(<<".">>), !.flag = <<"RDONLY">>]}
         ELSE {})
     \cup UNION {HCallsFor(s, h) : h \in DOMAIN s.h}
     \cup {[C0 EXCEPT !.op = "truncate", !.p = FA, !.n = n] : n \in {0, 2, 5}}
@@ -322,7 +325,8 @@ Emit(rec) == IF EdgeFile = "" THEN TRUE ELSE CSVWrite("%1$s", <<ToJson(rec)>>, E
 \* the handle profile starts with one three-byte file
 InitFor ==
     IF Profile = "handles"
-    THEN WriteFile(InitSt, [C0 EXCEPT !.op = "writefile", !.p = FA, !.data = <<1, 2, 3>>, !.perm = 420]).st
+    THEN Chdir(WriteFile(InitSt, [C0 EXCEPT !.op = "writefile", !.p = FA, !.data = <<1, 2, 3>>, !.perm = 420]).st,
+               [C0 EXCEPT !.op = "chdir", !.p = WorkP]).st
     ELSE InitSt
 
 Init ==
@@ -336,7 +340,8 @@ Init ==
 \* configured profiles issue exactly one call from each initial state
 Budget == IF Profile \in {"symq", "symchain", "perm1", "perm2"} THEN 1 ELSE MaxLen
 
-EmitHist == IF Profile = "handles" THEN <<[C0 EXCEPT !.op = "writefile", !.p = FA, !.data = <<1, 2, 3>>, !.perm = 420]>> \o hist ELSE hist
+EmitHist == IF Profile = "handles" THEN <<[C0 EXCEPT !.op = "writefile", !.p = FA, !.data = <<1, 2, 3>>, !.perm = 420],
+                                           [C0 EXCEPT !.op = "chdir", !.p = WorkP]>> \o hist ELSE hist
 
 Next ==
     /\ (IF Profile \in {"symq", "symchain", "perm1", "perm2"} THEN last.call.op = ""
